@@ -1,200 +1,46 @@
-//! Kani-NP: stack-disciplined pre-emption engine (DESIGN.md §2).
-//!
-//! Actors are numbered 0..NACT; actor `a` has NOPS[a] whole operations, executed by the
-//! harness-supplied `RUN(a, pc)`.  `point()` is called by every stubbed shared-memory primitive
-//! *before* it acts: the solver decides whether another actor's next whole operation runs right
-//! here (nested, down to MAXD).  `block_until` is called by the blocking models.
-use core::sync::atomic::Ordering;
-
-pub const MAXA: usize = 4;
-pub static mut ON: bool = false;
+//! Kani-NP, minimal core (DESIGN.md §2): every stubbed shared-memory primitive calls `point()`
+//! before it acts; `point()` calls the hook installed by the harness, which asks the solver
+//! whether another actor's next whole operation runs right here (nested call), down to the
+//! nesting depth the harness allows.  The hook is hand-written per harness: a generic actor
+//! table was measured to cost 20-50x more in CBMC (every merge point has to phi every symbol a
+//! branch may touch), see probes/np_engine_v1_generic.rs.
+pub static mut HOOK: Option<fn()> = None;
 pub static mut DEPTH: usize = 0;
-pub static mut MAXD: usize = 1;
-/// how many whole operations may be inserted at one schedule point
-pub static mut ROUNDS: usize = 1;
-pub static mut CUR: usize = 0;
-pub static mut NACT: usize = 0;
-pub static mut PC: [usize; MAXA] = [0; MAXA];
-pub static mut NOPS: [usize; MAXA] = [0; MAXA];
-/// inside an operation (running, pre-empted or blocked)
-pub static mut ACTIVE: [bool; MAXA] = [false; MAXA];
-pub static mut RUN: Option<fn(usize, usize)> = None;
 /// number of pre-emptions taken on this path (for reachability witnesses)
 pub static mut PREEMPTS: usize = 0;
-/// number of times an actor had to wait for others (blocked path taken)
-pub static mut BLOCKS: usize = 0;
-/// harness-controlled `thread::panicking()` per actor
-pub static mut PANICKING: [bool; MAXA] = [false; MAXA];
+/// harness-controlled `std::thread::panicking()`
+pub static mut PANICKING: bool = false;
 
-pub fn setup(maxd: usize, rounds: usize, nops: &[usize], run: fn(usize, usize)) {
-    unsafe {
-        MAXD = maxd;
-        ROUNDS = rounds;
-        NACT = nops.len();
-        let mut i = 0;
-        while i < MAXA {
-            NOPS[i] = if i < nops.len() { nops[i] } else { 0 };
-            PC[i] = 0;
-            ACTIVE[i] = false;
-            i += 1;
-        }
-        RUN = Some(run);
-        DEPTH = 0;
-        ON = true;
-    }
-}
-
-#[inline]
-pub fn cur() -> usize {
-    unsafe { CUR }
-}
-
-#[inline]
-fn eligible(a: usize) -> bool {
-    unsafe { a < NACT && !ACTIVE[a] && PC[a] < NOPS[a] }
-}
-
-fn any_eligible() -> bool {
-    let mut a = 0;
-    while a < MAXA {
-        if eligible(a) {
-            return true;
-        }
-        a += 1;
-    }
-    false
-}
-
-/// every actor other than the current one has finished all its operations
-fn others_done() -> bool {
-    unsafe {
-        let mut a = 0;
-        while a < MAXA {
-            if a < NACT && a != CUR && (ACTIVE[a] || PC[a] < NOPS[a]) {
-                return false;
-            }
-            a += 1;
-        }
-        true
-    }
-}
-
-/// run the next whole operation of actor `a` on top of the current stack
-pub fn run_next(a: usize) {
-    unsafe {
-        let pc = PC[a];
-        PC[a] = pc + 1;
-        ACTIVE[a] = true;
-        let saved = CUR;
-        CUR = a;
-        (RUN.unwrap())(a, pc);
-        CUR = saved;
-        ACTIVE[a] = false;
-    }
-}
-
-fn pick() -> usize {
-    let a: usize = kani::any();
-    kani::assume(eligible(a));
-    a
-}
-
-/// schedule point: the solver may insert whole operations of other actors here
+#[inline(never)]
 pub fn point() {
     unsafe {
-        if !ON || DEPTH >= MAXD {
-            return;
-        }
-        let mut r = 0;
-        while r < ROUNDS {
-            if !kani::any::<bool>() {
-                break;
-            }
-            let a = pick();
-            DEPTH += 1;
-            PREEMPTS += 1;
-            run_next(a);
-            DEPTH -= 1;
-            r += 1;
+        if let Some(h) = HOOK {
+            h();
         }
     }
 }
-
-/// the current actor cannot continue until `cond` holds: let the others run (same nesting
-/// depth: a blocked frame is inert).  If nobody can make it true the actor is stuck for ever:
-/// a deadlock when every other actor has finished, otherwise a schedule outside the
-/// stack-disciplined class (pruned; covered by the twin harness with the roles exchanged).
-pub fn block_until<F: Fn() -> bool>(cond: F) -> bool {
+pub fn point_at(_addr: *const u8) {
+    point();
+}
+/// run `f` as a pre-empting operation (one nesting level deeper)
+pub fn nested<F: FnOnce()>(f: F) {
     unsafe {
-        if !cond() {
-            BLOCKS += 1;
-        }
-        while !cond() {
-            if !any_eligible() {
-                break;
-            }
-            let a = pick();
-            run_next(a);
-        }
-        if cond() {
-            return true;
-        }
-        if others_done() {
-            return false; // caller reports the deadlock with its own message
-        }
-        kani::assume(false);
-        false
+        DEPTH += 1;
+        PREEMPTS += 1;
+        f();
+        DEPTH -= 1;
     }
 }
-
-/// one unsuccessful poll of a spin loop: somebody else has to make progress
-pub fn spin() -> bool {
+/// run model-internal code without schedule points
+pub fn quiet<R, F: FnOnce() -> R>(f: F) -> R {
     unsafe {
-        if any_eligible() {
-            let a = pick();
-            run_next(a);
-            return true;
-        }
-        if others_done() {
-            return false; // spinning on something nobody will ever write
-        }
-        kani::assume(false);
-        false
+        let h = HOOK;
+        HOOK = None;
+        let r = f();
+        HOOK = h;
+        r
     }
 }
-
-/// run actor `root` to completion (schedule points between and inside its operations), then
-/// everything that is left, in a solver-chosen serial order.
-pub fn run_all(root: usize) {
-    unsafe {
-        while PC[root] < NOPS[root] {
-            point();
-            run_next(root);
-        }
-        finish();
-    }
-}
-
-pub fn finish() {
-    while any_eligible() {
-        let a = pick();
-        run_next(a);
-    }
-}
-
-pub fn all_done() -> bool {
-    unsafe {
-        let mut a = 0;
-        while a < MAXA {
-            if a < NACT && (ACTIVE[a] || PC[a] < NOPS[a]) {
-                return false;
-            }
-            a += 1;
-        }
-        true
-    }
-}
-
 pub fn panicking_stub() -> bool {
-    unsafe { PANICKING[CUR] }
+    unsafe { PANICKING }
 }
